@@ -360,5 +360,70 @@ def r06_7(ctx):
          ctx.bad(construct, f"normalisation is not (FLOAT-guarded and before the store): guards {sorted(gs)}", g.loc(norm[0])))
 
 
+def r06_8(ctx):
+    """R06.8 (a) numeric conversions of symbol values in the evaluators and consumers are checked conversions (validity
+    guard, ValueError handler, or a value validated when stored); (b) range bounds are parsed in the base of the *ranged*
+    symbol everywhere (evaluator, config server, dialog validator), never in the base of the bound's own type; (c) the
+    JSON and CMake converters parse in the base the value was validated in (10 for int, 16 for hex)."""
+    from .common import checked_conversions
+    repo = ctx.repo
+    # (_sym_to_num is documented to raise ValueError; its caller expr_value handles it)
+    checked_conversions(ctx, [f"{CORE}:Symbol.str_value", "kconfserver.core:get_ranges.<locals>.get_active_range"])
+    for q in (f"{CORE}:Symbol.str_value", "kconfserver.core:get_ranges.<locals>.get_active_range", "esp_menuconfig.formatting:check_valid"):
+        f = repo.func(q)
+        ctx.analysed(q)
+        loops = [n for n in ast.walk(f.node) if isinstance(n, ast.For) and ast.unparse(n.iter).endswith(".ranges")]
+        for lp in loops:
+            bound_vars = {t.id for t in ast.walk(lp.target) if isinstance(t, ast.Name)}
+            convs = [n for n in ast.walk(lp) if isinstance(n, ast.Call) and isinstance(n.func, ast.Name) and n.func.id == "int" and len(n.args) == 2]
+            if not convs:
+                continue
+            construct = f"{f.short}/range bounds parsed in the ranged symbol's base (loop at +{lp.lineno - f.node.lineno})"
+            bad = None
+            for c in convs:
+                b = c.args[1]
+                names = {x.id for x in ast.walk(b) if isinstance(x, ast.Name)}
+                # follow one assignment of the base variable inside the loop
+                for nm in list(names):
+                    for a in ast.walk(lp):
+                        if isinstance(a, ast.Assign) and any(isinstance(t, ast.Name) and t.id == nm for t in a.targets):
+                            names |= {x.id for x in ast.walk(a.value) if isinstance(x, ast.Name)}
+                if names & bound_vars:
+                    bad = c
+            (ctx.bad(construct, f"`{ast.unparse(bad)}`: the base depends on the bound itself - a literal bound of a hex option is read as decimal, so the "
+                     "active range differs from the one the config server and the validator report", f.loc(bad)) if bad else ctx.ok(construct, f.loc(lp), conversions=len(convs)))
+    j = repo.func("kconfgen.core:get_json_values.<locals>.write_node")
+    ctx.analysed(j.qual)
+    chains = type_chains(repo, j.node)
+    for ty, want in (("INT", ("int(candidate_val)", "int(candidate_val, 10)")), ("HEX", ("int(candidate_val, 16)",))):
+        arms = [a for a in _arms_for(chains, ty) if any(isinstance(x, ast.Call) and isinstance(x.func, ast.Name) and x.func.id == "int" for s in a[3] for x in ast.walk(s))]
+        construct = f"get_json_values.<locals>.write_node/{ty} parsed in the base it was validated in"
+        if not arms:
+            ctx.bad(construct, f"no dedicated {ty} arm with an int() conversion", j.loc())
+            continue
+        calls = [ast.unparse(x) for s in arms[0][3] for x in ast.walk(s) if isinstance(x, ast.Call) and isinstance(x.func, ast.Name) and x.func.id == "int"]
+        own_arm = arms[0][1] == {ty}
+        (ctx.ok(construct, j.loc(arms[0][0])) if own_arm and all(c in want for c in calls) else
+         ctx.bad(construct, f"{ty} values are converted with {calls} (arm for {sorted(arms[0][1])}): values accepted by set_value (leading zeros, "
+                 "unprefixed hex) raise or get another value in JSON only", f"{j.module.relpath}:{arms[0][2].lineno}"))
+
+
+def r06_9(ctx):
+    """R06.9 a default taken over from sdkconfig is validated like a user value: Symbol._inject_default_value rejects the
+    stored value through Symbol.value_is_valid (the single form check, including hex non-negativity) before it rewrites
+    the defaults."""
+    repo = ctx.repo
+    inj = repo.func(f"{CORE}:Symbol._inject_default_value")
+    ctx.analysed(inj.qual)
+    first = [n for n in inj.node.body if not (isinstance(n, ast.Expr) and isinstance(n.value, ast.Constant))][0]
+    construct = "Symbol._inject_default_value/stored value checked with value_is_valid before it becomes a default"
+    ok = isinstance(first, ast.If) and "not self.value_is_valid(" in ast.unparse(first.test) and isinstance(first.body[-1], ast.Return)
+    stores = [n for n in ast.walk(inj.node) if isinstance(n, ast.Assign) and ast.unparse(n.targets[0]) == "self.defaults"]
+    ok = ok and bool(stores) and all(s.lineno > first.lineno for s in stores)
+    (ctx.ok(construct, inj.loc(first)) if ok else
+     ctx.bad(construct, "the injected default bypasses Symbol.value_is_valid (an inline per-type check forgets e.g. that hex values must be non-negative): a malformed "
+             "default-marked entry becomes the option's value in every output", inj.loc(first)))
+
+
 def rules():
-    return [("R06.6", r06_6, 14), ("R06.7", r06_7, 3), ("R06.1", r06_1, 7), ("R06.2", r06_2, 6), ("R06.3", r06_3, 2), ("R06.4", r06_4, 20), ("R06.5", r06_5, 3)]
+    return [("R06.6", r06_6, 14), ("R06.7", r06_7, 3), ("R06.1", r06_1, 7), ("R06.2", r06_2, 6), ("R06.3", r06_3, 2), ("R06.4", r06_4, 20), ("R06.5", r06_5, 3), ("R06.8", r06_8, 12), ("R06.9", r06_9, 1)]
